@@ -1,4 +1,5 @@
 """C04 Quantification, restriction, apply-and-quantify, substitution: wiring and dualisation tables"""
+import substrate
 import edm
 import esubst
 import etaut
@@ -57,4 +58,5 @@ def run(ctx):
                 "edges: it compares and hashes all key parts, and every entry is cleared (under its lock) in pre_gc / before a "
                 "reordering, so that no entry survives the collection of one of its nodes and is served for a recycled id.")
     edm.run(ctx, F)
+    substrate.run(ctx, F, dm=False)
     ctx.not_decided = "the induction over the diagram, behaviour under memory exhaustion"
